@@ -1,23 +1,23 @@
 ------------------------------ MODULE MC_trace ------------------------------
 EXTENDS RETrace
-XDets == {"det", "det2", "pdet", "apdet"}
+XDets == {"det", "det2", "pdet", "apdet", "npdet"}
 XMotors == {"motor", "motor2", "amotor"}
 XMons == {"mon1"}
 ReadValDef == [d \in XDets \cup XMotors \cup XMons |->
-                 CASE d = "amotor" -> "dict:amotor,amotor_setpoint" [] d = "apdet" -> "dict:apdet" [] d = "det" -> "dict:det" [] d = "det2" -> "dict:det2" [] d = "pdet" -> "dict:pdet"
+                 CASE d = "amotor" -> "dict:amotor,amotor_setpoint" [] d = "apdet" -> "dict:apdet" [] d = "det" -> "dict:det" [] d = "det2" -> "dict:det2" [] d = "pdet" -> "dict:pdet" [] d = "npdet" -> "dict:npdet"
                    [] d = "motor" -> "dict:motor,motor_setpoint" [] d = "motor2" -> "dict:motor2,motor2_setpoint"
                    [] d = "mon1" -> "dict:mon1"]
 DataKeysDef == [d \in XDets \cup XMotors \cup XMons |->
-                 CASE d = "amotor" -> {"amotor", "amotor_setpoint"} [] d = "apdet" -> {"apdet"} [] d = "det" -> {"det"} [] d = "det2" -> {"det2"} [] d = "pdet" -> {"pdet"}
+                 CASE d = "amotor" -> {"amotor", "amotor_setpoint"} [] d = "apdet" -> {"apdet"} [] d = "det" -> {"det"} [] d = "det2" -> {"det2"} [] d = "pdet" -> {"pdet"} [] d = "npdet" -> {"npdet"}
                    [] d = "motor" -> {"motor", "motor_setpoint"} [] d = "motor2" -> {"motor2", "motor2_setpoint"}
                    [] d = "mon1" -> {"mon1"}]
 StreamOrderDef == <<"baseline", "fly1_stream", "fly2_stream", "interruptions", "mon1", "primary">>
-DevOrderDef == <<"det", "det2", "mon1", "motor", "motor2", "pdet", "amotor", "apdet", "fly1", "fly2">>
+DevOrderDef == <<"det", "det2", "mon1", "motor", "motor2", "pdet", "amotor", "apdet", "fly1", "fly2", "npdet">>
 FlyStreamDef == [f \in {"fly1", "fly2"} |-> f \o "_stream"]
 FlyNDef == [f \in {"fly1", "fly2"} |-> 2]
-XSus == {"s1", "s2"}
-SigOfDef == [x \in XSus |-> IF x = "s1" THEN "sig1" ELSE "sig2"]
-SusFutsDef == [x \in XSus |-> IF x = "s1" THEN <<"s1a", "s1b", "s1c", "s1d">> ELSE <<"s2a", "s2b", "s2c", "s2d">>]
+XSus == {"s1", "s2", "s3"}
+SigOfDef == [x \in XSus |-> IF x = "s1" THEN "sig1" ELSE IF x = "s2" THEN "sig2" ELSE "sig3"]
+SusFutsDef == [x \in XSus |-> IF x = "s1" THEN <<"s1a", "s1b", "s1c", "s1d">> ELSE IF x = "s2" THEN <<"s2a", "s2b", "s2c", "s2d">> ELSE <<"s3a", "s3b", "s3c", "s3d">>]
 M(c, o, r, a) == Msg(c, o, r, a)
 PlanLibDef == [n |-> <<M("null", "", "", "")>>, s |-> <<M("sleep", "", "", "")>>,
                nn |-> <<M("null", "", "", ""), M("null", "", "", "")>>]
